@@ -2,7 +2,8 @@
 """Self-validation: run checks against known-bad variants of the repository, on scratch copies.
 
   selftest.py <patch-or-dir> [<Cxx> ...] [--tier quick|thorough] [--keep]
-  selftest.py --all            every mutants/*.patch and seeded/*/patch.diff with the properties named in its header/meta
+  selftest.py --all [filters] [--props C02,C07]   every mutants/*.patch and seeded/*/patch.diff (path contains a filter)
+                               with the properties named in its header/meta (restricted to --props)
 
 Nothing under /repo or /verif is touched: /repo's working tree and /verif (tracked files + ref/) are copied
 to a scratch directory, the harness's path dependencies are pointed at the scratch repository, the patch is
@@ -124,6 +125,11 @@ def main():
     if "--keep" in args:
         keep = True
         args.remove("--keep")
+    only_props = None
+    if "--props" in args:  # restrict an --all run to these properties (e.g. after their checks changed)
+        i = args.index("--props")
+        only_props = set(args[i + 1].replace(",", " ").split())
+        del args[i:i + 2]
     jobs = []
     if args and args[0] == "--all":
         md = os.path.join(ROOT, "mutants")
@@ -154,6 +160,10 @@ def main():
             results = {}
     for patch, props in jobs:
         props = props or props_of(patch)
+        if only_props is not None:
+            props = [x for x in props if x in only_props]
+            if not props:
+                continue
         name = os.path.relpath(patch, ROOT)
         if not props:
             print(f"{name}: no properties named", flush=True)
